@@ -416,8 +416,8 @@ def hkl_family(rng, ctx, K, mon):
 
 
 def plan(tier, seed):
-    n = 8 if tier == 'quick' else 16
-    return [{'q': 40 if tier == 'quick' else 5000, 'hkl': 40 if tier == 'quick' else 5000} for _ in range(n)]
+    n = 16
+    return [{'q': 150 if tier == 'quick' else 5000, 'hkl': 150 if tier == 'quick' else 5000} for _ in range(n)]
 
 
 def requirements(tier):
